@@ -662,7 +662,7 @@ fn ref_event(st: &mut RefEvents, line: &str, r: Ref) -> Result<(), Ambiguous> {
                 return Err(Ambiguous); // the text trims values of key/value records only
             }
             if let (Some(s), Some(e)) = (ref_f64(f[1], r)?, ref_f64(f[2], r)?) {
-                // a break never ends before it starts
+                // a break never ends before it starts; otherwise the end is the number as written
                 st.breaks.push((s, if e < s { s } else { e }));
             }
         }
@@ -678,14 +678,6 @@ fn ref_event(st: &mut RefEvents, line: &str, r: Ref) -> Result<(), Ambiguous> {
         _ => {}
     }
     Ok(())
-}
-
-fn norm_zero(x: f64) -> f64 {
-    if x == 0.0 {
-        0.0
-    } else {
-        x
-    }
 }
 
 struct RefColors {
@@ -750,7 +742,7 @@ fn reference(sec: Sec, lines: &[String], r: Ref) -> Option<Fields> {
                 ("breaks", fl(|l| {
                     l.i(st.breaks.len() as i128);
                     for (s, e) in &st.breaks {
-                        l.f64(*s).f64(norm_zero(*e));
+                        l.f64(*s).f64(*e);
                     }
                 })),
             ])
@@ -784,8 +776,9 @@ fn reference(sec: Sec, lines: &[String], r: Ref) -> Option<Fields> {
 }
 
 /// the implementation's fields in the form the reference is compared in
-/// (break end with the sign of zero dropped: "never ends before it starts" is
-/// a numeric statement)
+/// (break times bit for bit: the end is the written number unless that lies
+/// before the start, so a zero keeps its sign -- `2,-0,0` and `2,0,-0` are
+/// stored as written; a start.max(end) that drops the sign is a failure)
 fn comparable(sec: Sec, lines: &[String]) -> Option<Fields> {
     if sec != Sec::Events {
         return run_impl(sec, lines).ok().map(|x| x.1);
@@ -800,7 +793,7 @@ fn comparable(sec: Sec, lines: &[String]) -> Option<Fields> {
             ("breaks", fl(|l| {
                 l.i(st.breaks.len() as i128);
                 for b in &st.breaks {
-                    l.f64(b.start_time).f64(norm_zero(b.end_time));
+                    l.f64(b.start_time).f64(b.end_time);
                 }
             })),
         ]
@@ -1425,6 +1418,10 @@ pub fn generate(tier: &str, seed: u64, out: &mut Out) {
     run_case(Sec::Difficulty, &[s("SliderMultiplier:3.7"), s("SliderTickRate:0.1")], "corpus", out, &mut known);
     run_case(Sec::Events, &[s("4,Background,Centre,\"sb.png\",320,240"), s("4,Background,Centre,\"sb2.png\",320,240"), s("1,0,\"old.jpg\""), s("0,0,\"bg.png\",0,0")], "corpus", out, &mut known);
     run_case(Sec::Events, &[s("2,500,100"), s("2,-0,0"), s("2,0,-0")], "corpus", out, &mut known);
+    // breaks between the two zeros (both sign orders), equal start and end, reversed breaks
+    for l in ["2,-0,0", "2,0,-0", "2,-0,-0", "2,0,0", "Break,-0.0,0e5", "2,100,100", "2,-7.5,-7.5", "2,900,100", "2,0,-5", "2,-0,-5e-324", "2,5e-324,-0"] {
+        run_case(Sec::Events, &[s(l)], "corpus.break", out, &mut known);
+    }
     run_case(Sec::Colors, &[s("Combo1 : 1,2,3"), s("SliderBorder: 4,5,6,7"), s("SliderBorder: 8,9,10")], "corpus", out, &mut known);
 
     // (a) the key x value x decoration matrix
